@@ -50,12 +50,26 @@ AtMarker(evs, gr) ==
        ELSE IF e.k = "csi" /\ e.b = 109 /\ e.i = <<>> /\ ~e.ign THEN AtMarker(Tail(evs), ApplyStrict(gr, e.p))
        ELSE AtMarker(Tail(evs), gr)
 
+\* a rendition anstyle has no name for: rapidly blinking (6) is not slowly blinking (5, anstyle's BLINK), fonts 10..20,
+\* fraktur, framed/encircled/overlined 51..53 - a conversion must not invent one
+Foreign(v) == v = 6 \/ (v >= 10 /\ v <= 20) \/ (v >= 51 /\ v <= 53)
+RECURSIVE UsesForeign(_)
+UsesForeign(evs) ==
+  IF evs = <<>> THEN FALSE
+  ELSE LET e == Head(evs) IN
+       IF e.k = "print" /\ e.c = 88 THEN FALSE
+       \* whole tokens only: a 6 that is a colour component (38;5;6, 48;2;6;6;6) is not a code
+       ELSE IF e.k = "csi" /\ e.b = 109 /\ e.i = <<>> /\ ~e.ign
+               /\ (\E k \in 1..Len(Tokens(e.p)) : Tokens(e.p)[k][1] = "code" /\ Foreign(Tokens(e.p)[k][2])) THEN TRUE
+       ELSE UsesForeign(Tail(evs))
+
 RenderedOk(lib, st, bytes) ==
   LET want == GrOf(st)
       m    == AtMarker(VP!Run(VP!Init0, bytes)[2], Default)
       got  == m[2]
       fgBright == want.fg # None /\ want.fg[1] = "ansi" /\ want.fg[2] >= 8
   IN /\ m[1]
+     /\ ~UsesForeign(VP!Run(VP!Init0, bytes)[2])
      /\ NormCol(lib, got.fg) = NormColExp(lib, want.fg)
      /\ NormCol(lib, got.bg) = NormColExp(lib, want.bg)
      /\ (HasUl(lib) => NormCol(lib, got.ul) = NormColExp(lib, want.ul))
